@@ -7,6 +7,7 @@ import (
 	"strings"
 	"sync"
 	"sync/atomic"
+	"time"
 
 	"github.com/btcsuite/btcd/blockchain"
 	"github.com/btcsuite/btcd/chaincfg/v2"
@@ -29,6 +30,11 @@ type bWorld struct {
 	blks    []*lab.Blk
 	id      map[chainhash.Hash]int
 	bad     []bool // the invalid node and its descendants
+	// mixed-difficulty worlds (nil otherwise): heavy[i] = node i carries the
+	// genesis difficulty (256 units of work) instead of the minimum difficulty
+	// (1 unit); work[i] is the cumulative work in those units
+	heavy []bool
+	work  []int
 
 	mu   sync.Mutex
 	memo map[string]refRun
@@ -60,6 +66,62 @@ func newBWorld(parents []int, invalid int) *bWorld {
 		panic("lab produced colliding block hashes")
 	}
 	return w
+}
+
+// newBWorldHeavy builds a mixed-difficulty world on a minimum-difficulty
+// network (the testnet 20-minute rule): the genesis block carries a target 256
+// times harder than the proof-of-work limit; a heavy node is stamped one
+// minute after its parent and must carry that difficulty, a light node 21
+// minutes after its parent and must carry the limit.  No retarget boundary is
+// crossed.  Cumulative work and height now order chains differently.
+func newBWorldHeavy(parents []int, heavy []bool) *bWorld {
+	p := lab.RegtestLike()
+	p.PoWNoRetargeting = false
+	p.ReduceMinDifficulty = true
+	p.MinDiffReductionTime = 20 * time.Minute
+	const heavyBits = 0x1f7fffff // 0x207fffff (the limit) / 256
+	g := *p.GenesisBlock
+	g.Header.Bits = heavyBits
+	g.Header.Timestamp = lab.Now.Add(-30 * 24 * time.Hour)
+	lab.Solve(&g.Header)
+	gh := lab.HeaderHash(&g.Header)
+	p.GenesisBlock = &g
+	p.GenesisHash = (*chainhash.Hash)(&gh)
+	w := &bWorld{params: p, parents: parents, ref: c17tree.New(parents), invalid: -1,
+		id: map[chainhash.Hash]int{}, memo: map[string]refRun{}, heavy: heavy}
+	n := len(parents)
+	w.blks = make([]*lab.Blk, n)
+	w.bad = make([]bool, n)
+	w.work = make([]int, n)
+	w.blks[0] = lab.Genesis(p)
+	w.id[w.blks[0].Hash] = 0
+	for i := 1; i < n; i++ {
+		par := w.blks[parents[i]]
+		o := lab.BOpt{Tag: uint32(2000 + i), Name: fmt.Sprintf("N%d", i)}
+		if heavy[i] {
+			o.Bits = heavyBits
+			o.Time = par.Msg.Header.Timestamp.Add(time.Minute)
+			w.work[i] = w.work[parents[i]] + 256
+		} else {
+			o.Time = par.Msg.Header.Timestamp.Add(21 * time.Minute)
+			w.work[i] = w.work[parents[i]] + 1
+		}
+		w.blks[i] = lab.Build(p, par, o)
+		w.id[w.blks[i].Hash] = i
+	}
+	if len(w.id) != n {
+		panic("lab produced colliding block hashes")
+	}
+	return w
+}
+
+// workOf: cumulative work of node x (its height when every block carries the
+// same work).
+func (w *bWorld) workOf(x int) int {
+	if w.work != nil {
+		return w.work[x]
+	}
+	return w.ref.Height(x)
 }
 
 func (w *bWorld) k() int { return len(w.parents) - 1 }
@@ -287,16 +349,15 @@ func (s *sysB) st(x int) byte {
 	return v
 }
 
-// firstMax: the first node (in list order, genesis first) with maximal height
-// (= cumulative work: every lab block carries the same work), skipping nodes for
-// which skip is true.
+// firstMax: the first node (in list order, genesis first) with maximal
+// cumulative work, skipping nodes for which skip is true.
 func (s *sysB) firstMax(list []int, skip func(int) bool) int {
 	best := 0
 	for _, x := range list {
 		if skip != nil && skip(x) {
 			continue
 		}
-		if s.w.ref.Height(x) > s.w.ref.Height(best) {
+		if s.w.workOf(x) > s.w.workOf(best) {
 			best = x
 		}
 	}
